@@ -15,6 +15,15 @@ E1_TECH = ('bounded symbolic execution of the real yatiml/PyYAML code with '
            'bounds), counterexamples replayed on the unstubbed public API')
 
 CHECKS = {
+    'C18': dict(
+        text='Oracle-free pairs on the real pipeline: for every ordered pair '
+             'of nodes (i, j) of the base documents of 16 class models (i not '
+             'an ancestor of j; node i optionally retagged), the document in '
+             'which j IS node i (what an alias composes to) must load exactly '
+             'like the document with a copy of i at j, or both must fail; 9 '
+             'self-referential shapes x 7 document types must be rejected '
+             'with an error other than RecursionError.',
+        design='4/C18'),
     'C04': dict(
         text='Same symbolic document space as C01 on models with Any / '
              'untyped / _yatiml_extra positions and a registered class (Trap) '
